@@ -213,7 +213,7 @@ func init() {
 		"(*sync.Mutex).Lock", "(*sync.Mutex).Unlock",
 		"(*sync.RWMutex).Lock", "(*sync.RWMutex).Unlock", "(*sync.RWMutex).RLock", "(*sync.RWMutex).RUnlock",
 		"(*sync.WaitGroup).Add", "(*sync.WaitGroup).Done", "(*sync.WaitGroup).Wait",
-		"runtime.GC", "runtime.Gosched", "runtime.KeepAlive", "runtime.SetFinalizer",
+		"runtime.GC", "runtime.KeepAlive", "runtime.SetFinalizer",
 		"internal/race.Acquire", "internal/race.Release", "internal/race.ReleaseMerge", "internal/race.Disable", "internal/race.Enable",
 		"internal/race.Read", "internal/race.Write", "internal/race.ReadRange", "internal/race.WriteRange",
 	} {
@@ -276,6 +276,12 @@ func init() {
 	externals["(*sync.Mutex).Lock"], externals["(*sync.Mutex).Unlock"] = lock(true), unlock(true)
 	externals["(*sync.RWMutex).Lock"], externals["(*sync.RWMutex).Unlock"] = lock(true), unlock(true)
 	externals["(*sync.RWMutex).RLock"], externals["(*sync.RWMutex).RUnlock"] = lock(false), unlock(false)
+	externals["runtime.Gosched"] = func(fr *frame, a []value) value {
+		if ex := fr.i.x; ex.coop() {
+			ex.gosched()
+		}
+		return nil
+	}
 	externals["(*sync.Mutex).TryLock"] = func(fr *frame, a []value) value { return true }
 	externals["(*sync.Once).Do"] = func(fr *frame, a []value) value {
 		ex := fr.i.x
